@@ -84,7 +84,49 @@ func genKeys() []*keyT {
 	add("ed25519", priv, pub, pemOf("PRIVATE KEY", must(x509.MarshalPKCS8PrivateKey(priv))))
 	k384 := must(ecdsa.GenerateKey(elliptic.P384(), crand.Reader)) // 7
 	add("p384", k384, &k384.PublicKey, pemOf("PRIVATE KEY", must(x509.MarshalPKCS8PrivateKey(k384))))
+	k8 := must(ecdsa.GenerateKey(elliptic.P256(), crand.Reader)) // 8: registered for c-beta2
+	add("p256", k8, &k8.PublicKey, pemOf("PRIVATE KEY", must(x509.MarshalPKCS8PrivateKey(k8))))
 	return ks
+}
+
+// nearMiss returns a string that differs from s only slightly (suffix, truncation,
+// case, whitespace): what a weakened comparison (prefix / case-insensitive / trimmed)
+// would still accept.
+func nearMiss(r drv.Rand, s string) string {
+	switch r.IntN(10) {
+	case 0:
+		return s + "0"
+	case 1:
+		return s + "-staging"
+	case 2:
+		return s + ".evil.example.net"
+	case 3:
+		return s + "/"
+	case 4:
+		if len(s) > 1 {
+			return s[:len(s)-1]
+		}
+		return s + "x"
+	case 5:
+		if u := strings.ToUpper(s); u != s {
+			return u
+		}
+		return strings.ToLower(s)
+	case 6:
+		if s != "" {
+			return strings.ToUpper(s[:1]) + s[1:]
+		}
+		return "X"
+	case 7:
+		return s + " "
+	case 8:
+		return " " + s
+	default:
+		if len(s) > 3 {
+			return s[:len(s)/2]
+		}
+		return s + s
+	}
 }
 
 func must2[A, B any](a A, b B, err error) (A, B) {
@@ -401,9 +443,10 @@ func baseWorld(keys []*keyT) world {
 			{"c-beta", "b1", keys[1]}, {"c-beta", "a1", keys[4]},
 			{"c-gamma", "g1", keys[6]}, {"c-gamma", "g2", keys[7]},
 			{"c-delta", "", keys[3]},
+			{"c-beta2", "b1", keys[8]}, // id extends "c-beta", same kid, different key
 		},
 		clients: [][2]string{{"c-alpha", "private_key_jwt"}, {"c-beta", "private_key_jwt"},
-			{"c-gamma", "client_secret_basic"}, {"c-delta", "none"}},
+			{"c-gamma", "client_secret_basic"}, {"c-delta", "none"}, {"c-beta2", "private_key_jwt"}},
 	}
 }
 
@@ -417,7 +460,7 @@ func (w world) regsOf(client string) []reg {
 	return out
 }
 
-var issuers = []string{"https://op.example.com", "https://op.example.com", "https://op.example.com", "https://op.example.com/tenant/a", "http://localhost:9998"}
+var issuers = []string{"https://op.example.com", "https://op.example.com", "https://op.example.com/t1", "https://op.example.com/t1", "https://op.example.com/tenant/a", "http://localhost:9998"}
 
 type vset struct {
 	maxAge, offset time.Duration
@@ -571,10 +614,35 @@ func assertionCase(r drv.Rand, w *emit.Writer, wd world, bump func(string)) {
 	regs := wd.regs
 	muts := []string{}
 	nm := []int{0, 0, 0, 0, 1, 1, 1, 1, 2, 2}[r.IntN(10)]
+	near := r.Chance(3, 10) // exactly one near-miss string, everything else valid
+	if near {
+		nm = 1
+	}
 	for k := 0; k < nm; k++ {
 		m := drv.Pick(r, []string{"iss", "sub", "aud", "iat", "iat", "exp", "exp", "kid", "alg", "signer", "signer", "tamper", "unregister", "malformed"})
+		if near {
+			m = drv.Pick(r, []string{"near_aud", "near_aud", "near_aud", "near_sub", "near_sub", "near_iss", "near_kid"})
+		}
 		muts = append(muts, m)
 		switch m {
+		case "near_aud":
+			nmv := nearMiss(r, issuer)
+			c.aud = drv.Pick(r, [][]string{{nmv}, {nmv}, {"https://other.example.com", nmv}, {nmv, named}, {}, {nearMiss(r, issuer), nmv}})
+		case "near_sub":
+			c.sub = nearMiss(r, c.iss)
+			if named == "c-beta" && r.Bool() {
+				c.sub = "c-beta2"
+			}
+		case "near_iss": // a client id that extends / truncates the registered one
+			c.iss = nearMiss(r, named)
+			if named == "c-beta" && r.Bool() {
+				c.iss = "c-beta2" // registered, same kid b1, other key
+			}
+			if r.Bool() {
+				c.sub = c.iss
+			}
+		case "near_kid":
+			plan.kid = nearMiss(r, own.kid)
 		case "iss":
 			c.iss = drv.Pick(r, []string{"c-beta", "c-alpha", "c-unknown", "", "c-alpha "})
 			if r.Bool() {
@@ -918,10 +986,51 @@ func requestCase(r drv.Rand, w *emit.Writer, wd world) {
 	regs := wd.regs
 	muts := []string{}
 	nm := []int{0, 0, 0, 0, 0, 1, 1, 1, 1, 2}[r.IntN(10)]
+	near := r.Chance(3, 10) // exactly one near-miss string, everything else valid
+	if near {
+		nm = 1
+	}
 	for k := 0; k < nm; k++ {
 		m := drv.Pick(r, []string{"iss", "inner_client", "both_absent", "outer_client", "impersonate", "aud", "response_type", "kid", "alg", "signer", "signer", "tamper", "unregister", "malformed"})
+		if near {
+			m = drv.Pick(r, []string{"near_aud", "near_aud", "near_aud", "near_iss", "near_inner_client", "near_outer_client", "near_response_type", "near_response_type", "near_kid", "near_impersonate", "near_impersonate"})
+		}
 		muts = append(muts, m)
 		switch m {
+		case "near_aud":
+			nmv := nearMiss(r, issuer)
+			aud = drv.Pick(r, [][]string{{nmv}, {nmv}, {"https://other.example.com", nmv}, {nmv, named}, {}, {nearMiss(r, issuer), nmv}})
+		case "near_iss":
+			iss = nearMiss(r, named)
+		case "near_inner_client":
+			inner.clientID = nearMiss(r, named)
+			if r.Bool() {
+				iss = inner.clientID
+			}
+		case "near_outer_client":
+			outer.clientID = nearMiss(r, named)
+		case "near_response_type":
+			if inner.responseType == "" {
+				inner.responseType = "code"
+			}
+			if r.Bool() {
+				inner.responseType = nearMiss(r, outer.responseType)
+			} else {
+				outer.responseType = nearMiss(r, inner.responseType)
+			}
+		case "near_kid":
+			plan.kid = nearMiss(r, own.kid)
+		case "near_impersonate": // c-beta2 (id extends c-beta) signs with its own key, or the reverse
+			a, b := "c-beta", "c-beta2"
+			if r.Bool() {
+				a, b = b, a
+			}
+			o := drv.Pick(r, wd.regsOf(b))
+			outer.clientID, inner.clientID = a, a
+			iss, plan.key, plan.kid, plan.alg = b, o.key, o.kid, drv.Pick(r, naturalAlgs(o.key.kind))
+			if r.Chance(1, 3) {
+				inner.clientID = b
+			}
 		case "iss":
 			iss = drv.Pick(r, []string{"c-beta", "", "c-unknown", "c-alpha"})
 		case "inner_client":
